@@ -3,11 +3,15 @@ import Sudachi.Proofs.NumericLang
 import Sudachi.Proofs.NumericValue
 import Sudachi.Proofs.NumericDenote
 import Sudachi.Proofs.NumericClear
+import Sudachi.Proofs.RewriteNumericRun
+import Sudachi.Proofs.RewriteNumericTrace
 /-!
 # C15 — joined numerals are normalised to their decimal value
 
 Model: `Numeric.SN` (`StringNumber`), `Numeric.Parser` (`NumericParser`), `Numeric.rewrite`
-(`JoinNumericPlugin::rewrite_gen`), tied to the Rust code on every run by the correspondence check
+(`JoinNumericPlugin::rewrite_gen`, the property's first transcription, op `pipeline`) and
+`RewriteNumeric.joinNumeral` (C14's transcription of the plugin run with this parser model, op `pipe`;
+the theorems about the joined TOKEN at the end of this file are about it), tied to the Rust code on every run by the correspondence check
 (every string over the 28-symbol numeral alphabet up to length 4, value-driven numerals, the plugin
 on real dictionaries).  `Numeric.parse text = some s` means: every character is accepted, `done()`
 returns true and the normalised form is `s`.
@@ -515,5 +519,255 @@ example : canonInt ex12345 ++ fracPart (trimZeros (canonDigits [⟨false, 6⟩, 
 
 /-- a group length that is not three exists (the hypothesis of `reject_bad_last_group`) -/
 example : ([⟨false, 0⟩, ⟨false, 0⟩] : List Dg).length ≠ 3 := by decide
+
+
+/-! # The joined TOKEN (`Model/RewriteNumeric.lean`, op `pipe`)
+
+The property speaks about the token, not about the parser.  `RewriteNumeric.joinNumeral v nv cfg cat path`
+is `Rewrite.joinNumeric` (the transcription of `rewrite_gen` / `concat` / `concat_nodes` of property
+C14) run with the parser model of this property as its parser.  Paths are taken AS GIVEN: "not
+shadowed by a longer dictionary word" is a statement about the lattice / Viterbi (C02) and is outside;
+so is "the dictionary tags digits and units as numerals" — here: the first node of the run has the
+numeral part of speech (the plugin's own gate, `C14.numeral_gate`), the nodes are numeral candidates
+by CHARACTER CLASS (NUMERIC / KANJINUMERIC) or separators by normalised form, which is what the code
+tests.  The characters the plugin feeds are the NORMALISED forms of the nodes (`１` is fed as `1`), so
+"the surface is the rendering of the AST" is stated on the concatenated normalised forms (`accOf`).
+The theorems about well-formed runs are for the repaired loop (`NVariant.fix`, landed `8ae89d4`; the
+locality theorem `Rewrite.joinNumeric_split` they use needs termination) and for EVERY parser
+variant; `malformed_run_never_gets_a_value` needs the parser repairs F1–F4 (it uses the simulation
+behind `reject_malformed`) and F6 (the back-off). -/
+
+open RewriteNumeric
+open Rewrite (NCfg NVariant Resets accOf mergedNode normForm catSurface joinNumeric_split
+  joinNumeric_reset_last E_COMMA E_POINT)
+
+/-- **clause 1 on the token, run between two non-numeral nodes**: `A ++ [x]` is what precedes, `x` and
+`y` are nodes that are no numeral candidates under any flags (`Resets`: no numeric class, not `,`/`.`),
+`f :: R` is a run that writes the well-formed numeral `a` (`NumeralRun`), `B` is what follows `y`.
+Then the run becomes exactly ONE token `numeralTok` (range = union of the run, numeral part of speech,
+normalised form `canon v a` = the decimal value by `normal_form_value`; a single node whose form
+already is `canon` is kept as it is), and everything outside is what the joiner makes of `A ++ [x]`
+and of `B` on their own — in particular `x` and `y` stay. -/
+theorem numeral_run_joined (v : Variant) (cfg : NCfg) (cat : List Nat) (A B : List Rewrite.Node) (x y f : Rewrite.Node)
+    (R : List Rewrite.Node) (a : Numeral) (hrun : NumeralRun cfg cat f R a) (hx : Resets cat x) (hy : Resets cat y)
+    (l r : List Rewrite.Node) (hl : joinNumeral v .fix cfg cat (A ++ [x]) = .ok l)
+    (hr : joinNumeral v .fix cfg cat B = .ok r) :
+    joinNumeral v .fix cfg cat (A ++ x :: (f :: R ++ y :: B)) = .ok (l ++ numeralTok cfg v f R a :: y :: r) ∧
+      ∃ l0, l = l0 ++ [x] := by
+  obtain ⟨hok, htok⟩ := runOK_of_numeralRun v cfg cat f R a hrun
+  have hP := numericP_sepNotFirst v
+  have h1 := joinNumeric_run_reset cfg cat (numericP v) f R y hok hy
+  have h2 := joinNumeric_split cfg cat (numericP v) hP (f :: R) B y hy _ r h1 hr
+  have h3 := joinNumeric_split cfg cat (numericP v) hP A (f :: R ++ y :: B) x hx l _ hl h2
+  obtain ⟨l0, hl0, _⟩ := joinNumeric_reset_last cfg cat (numericP v) hP A x hx l hl
+  refine ⟨?_, l0, hl0⟩
+  unfold joinNumeral
+  rw [h3, htok]
+  simp
+
+/-- the same with the run at the START of the text -/
+theorem numeral_run_joined_at_text_start (v : Variant) (cfg : NCfg) (cat : List Nat) (B : List Rewrite.Node) (y f : Rewrite.Node)
+    (R : List Rewrite.Node) (a : Numeral) (hrun : NumeralRun cfg cat f R a) (hy : Resets cat y)
+    (r : List Rewrite.Node) (hr : joinNumeral v .fix cfg cat B = .ok r) :
+    joinNumeral v .fix cfg cat (f :: R ++ y :: B) = .ok (numeralTok cfg v f R a :: y :: r) := by
+  obtain ⟨hok, htok⟩ := runOK_of_numeralRun v cfg cat f R a hrun
+  have h1 := joinNumeric_run_reset cfg cat (numericP v) f R y hok hy
+  have h2 := joinNumeric_split cfg cat (numericP v) (numericP_sepNotFirst v) (f :: R) B y hy _ r h1 hr
+  unfold joinNumeral
+  rw [h2, htok]
+  simp
+
+/-- the same with the run at the END of the text -/
+theorem numeral_run_joined_at_text_end (v : Variant) (cfg : NCfg) (cat : List Nat) (A : List Rewrite.Node) (x f : Rewrite.Node)
+    (R : List Rewrite.Node) (a : Numeral) (hrun : NumeralRun cfg cat f R a) (hx : Resets cat x)
+    (l : List Rewrite.Node) (hl : joinNumeral v .fix cfg cat (A ++ [x]) = .ok l) :
+    joinNumeral v .fix cfg cat (A ++ x :: (f :: R)) = .ok (l ++ [numeralTok cfg v f R a]) := by
+  obtain ⟨hok, htok⟩ := runOK_of_numeralRun v cfg cat f R a hrun
+  have h1 := joinNumeric_run_end cfg cat (numericP v) f R hok
+  have h3 := joinNumeric_split cfg cat (numericP v) (numericP_sepNotFirst v) A (f :: R) x hx l _ hl h1
+  unfold joinNumeral
+  rw [h3, htok]
+
+/-- the same when the run is the whole text -/
+theorem numeral_run_joined_whole_text (v : Variant) (cfg : NCfg) (cat : List Nat) (f : Rewrite.Node)
+    (R : List Rewrite.Node) (a : Numeral) (hrun : NumeralRun cfg cat f R a) :
+    joinNumeral v .fix cfg cat (f :: R) = .ok [numeralTok cfg v f R a] := by
+  obtain ⟨hok, htok⟩ := runOK_of_numeralRun v cfg cat f R a hrun
+  unfold joinNumeral
+  rw [joinNumeric_run_end cfg cat (numericP v) f R hok, htok]
+
+/-- the fields of the joined token: range = union of the run, part of speech of the first node; with
+`enableNormalize` the stored normalised form is `canon v a` (or the single node already has it) -/
+theorem numeral_token_fields (cfg : NCfg) (v : Variant) (f : Rewrite.Node) (R : List Rewrite.Node) (a : Numeral) :
+    (numeralTok cfg v f R a).b = f.b ∧ (numeralTok cfg v f R a).e = (lastOf f R).e ∧
+    (numeralTok cfg v f R a).pos = f.pos ∧
+    (cfg.enableNormalize = true →
+      ((R ≠ [] ∨ canon v a ≠ normForm f) → (numeralTok cfg v f R a).norm = canon v a ∧
+        (numeralTok cfg v f R a).surface = catSurface (f :: R)) ∧
+      (¬ (R ≠ [] ∨ canon v a ≠ normForm f) → numeralTok cfg v f R a = f ∧ normForm f = canon v a)) := by
+  have hl : R = [] → lastOf f R = f := by intro h; subst h; rfl
+  unfold numeralTok
+  refine ⟨?_, ?_, ?_, ?_⟩
+  · repeat' split
+    all_goals rfl
+  · repeat' split
+    all_goals first | rfl | (simp_all)
+  · repeat' split
+    all_goals rfl
+  · intro hen
+    rw [if_pos hen]
+    constructor
+    · intro h
+      rw [if_pos h]
+      exact ⟨rfl, rfl⟩
+    · intro h
+      rw [if_neg h]
+      refine ⟨rfl, ?_⟩
+      have : ¬ canon v a ≠ normForm f := fun hh => h (.inr hh)
+      exact (Classical.not_not.mp this).symm
+
+/-- one join that carries a VALUE: the block `blk` of the path writes a well-formed numeral `a` whose
+terms fit, and is replaced by ONE token whose stored normalised form is `canon v a` — the value of
+exactly the joined span -/
+def ValueJoin (v : Variant) (p p' : List Rewrite.Node) : Prop :=
+  ∃ pre blk post f l a, p = pre ++ blk ++ post ∧ blk ≠ [] ∧ Numeral.WF a ∧ Numeral.Fits a ∧
+    render a = accOf blk ∧ p' = pre ++ mergedNode f l blk (some (canon v a)) :: post
+
+/-- **clause 2 on the token, FULL** (parser repairs F1–F4 and F6; every loop variant, EVERY path, every
+class table, `enableNormalize`): whatever the joiner joins, it joins by `ValueJoin` steps — every token
+it makes covers exactly the rendering of a well-formed numeral and carries ITS `canon` (never the
+value of a different numeral, never a malformed grouping: by `accepted_iff_wellformed` a span with a
+bad separator group, a dangling point or units out of order has no such AST).  This includes the
+trailing-separator back-off (`done()` failed with the error of the LAST node of the run, which is
+split off): the joined prefix is a well-formed numeral of its own and the rendering the parser holds
+after the separator is the `canon` of that prefix (`Numeric.done_without_sep`, needs F6 — for the
+pinned code it is false: `reject_malformed_counterexample_trailing_separator`).  Runs that are not
+well-formed are therefore left as they are or joined over well-formed sub-spans only; which
+sub-spans is decided by the loop and shown on the witnesses below. -/
+theorem malformed_run_never_gets_a_value (v : Variant) (h1 : v.f1 = true) (h2 : v.f2 = true)
+    (h3 : v.f3 = true) (h4 : v.f4 = true) (h6 : v.f6 = true) (nv : NVariant) (cfg : NCfg)
+    (hen : cfg.enableNormalize = true) (cat : List Nat) (path q : List Rewrite.Node)
+    (h : joinNumeral v nv cfg cat path = .ok q) :
+    Steps (ValueJoin v) path q := by
+  refine (joinNumeric_trace nv cfg cat (numericP v) path q h).mono ?_
+  rintro p p' ⟨pre, blk, post, f, l, tail, hp, hne, hp', _, hacc, ht⟩
+  rw [if_pos hen] at hp'
+  have key : ∀ n q', Parser.new.feed v (accOf blk) 0 = (n, true, q') → (q'.done v).1 = true →
+      ∃ a : Numeral, a.WF ∧ a.Fits ∧ render a = accOf blk ∧ (numericP v (accOf blk)).norm = canon v a := by
+    intro n q' hf hdq
+    obtain ⟨a, hw, hfit, hr⟩ := wellformed_of_feed_done v h1 h2 h3 h4 _ n q' hf hdq
+    refine ⟨a, hw, hfit, hr, ?_⟩
+    have hpc := parse_render_canon v a hw hfit
+    rw [hr] at hpc
+    exact (numericP_of_parse v _ _ hpc).2.2.2
+  rcases ht with ⟨rfl, hd⟩ | ⟨rfl, _, _, he⟩ | ⟨rfl, _, _, he⟩
+  · obtain ⟨n, q', hf, hdq⟩ := numericP_done_inv v _ hd
+    obtain ⟨a, hw, hfit, hr, hn⟩ := key n q' hf hdq
+    rw [List.append_nil, hn] at hp'
+    exact ⟨pre, blk, post, f, l, a, hp, hne, hw, hfit, hr, hp'⟩
+  · obtain ⟨n, q', hf, hdq, hnorm⟩ := numericP_backoff v h6 (accOf blk) ',' E_COMMA (.inl ⟨rfl, rfl⟩) hacc he
+    obtain ⟨a, hw, hfit, hr, hn⟩ := key n q' hf hdq
+    rw [← hnorm, hn] at hp'
+    exact ⟨pre, blk, post, f, l, a, hp, hne, hw, hfit, hr, hp'⟩
+  · obtain ⟨n, q', hf, hdq, hnorm⟩ := numericP_backoff v h6 (accOf blk) '.' E_POINT (.inr ⟨rfl, rfl⟩) hacc he
+    obtain ⟨a, hw, hfit, hr, hn⟩ := key n q' hf hdq
+    rw [← hnorm, hn] at hp'
+    exact ⟨pre, blk, post, f, l, a, hp, hne, hw, hfit, hr, hp'⟩
+
+/-- one join without `enableNormalize`: at least two nodes, the stored forms are concatenated
+(`mergedNode … none`: `norm := blk.flatMap (·.norm)`), no rendering of the parser is written -/
+def PlainJoin (p p' : List Rewrite.Node) : Prop :=
+  ∃ pre blk post f l, p = pre ++ blk ++ post ∧ 2 ≤ blk.length ∧ p' = pre ++ mergedNode f l blk none :: post ∧
+    (mergedNode f l blk none).norm = blk.flatMap (·.norm)
+
+/-- **`enableNormalize = false`** (every parser variant, loop variant, path): the joiner only ever
+replaces a block of AT LEAST TWO nodes by a token whose stored normalised form is the concatenation
+of the stored forms of the block; a single node is never touched and no value is ever written.
+(The stored form of a dictionary word is EMPTY when it equals the headword, so the joined token of
+`３万９` reads `39`: report, disagreement 1 — outside the property, which speaks about normalisation
+enabled.) -/
+theorem normalize_disabled_keeps_forms (v : Variant) (nv : NVariant) (cfg : NCfg)
+    (hen : cfg.enableNormalize = false) (cat : List Nat) (path q : List Rewrite.Node)
+    (h : joinNumeral v nv cfg cat path = .ok q) : Steps PlainJoin path q := by
+  refine (joinNumeric_trace nv cfg cat (numericP v) path q h).mono ?_
+  rintro p p' ⟨pre, blk, post, f, l, tail, hp, _, hp', h2, _, _⟩
+  rw [hen] at hp'
+  exact ⟨pre, blk, post, f, l, hp, h2 hen, hp', rfl⟩
+
+/-- a one-character node at character `b` (bytes = characters here), part of speech `pos` -/
+def tk (b : Nat) (s : String) (pos : Nat) : Rewrite.Node :=
+  { b := b, e := b + 1, bb := b, eb := b + 1, wid := b, tc := 0, left := 0, right := 0, cost := 0, pos := pos,
+    hwl := 1, dfw := -1, aSplit := [], bSplit := [], wStruct := [], syn := [], surface := s.toList, norm := [],
+    reading := [], dform := [] }
+
+/-- numeral part of speech 1, `enableNormalize` -/
+def wcfg : NCfg := { numPos := 1, enableNormalize := true }
+/-- one node per string; `円` is a noun (0), everything else is tagged as a numeral (1) -/
+def wpath (ss : List String) : List Rewrite.Node := (ss.zipIdx).map fun (s, i) => tk i s (if s = "円" then 0 else 1)
+
+/-- **what the code does with the malformed groupings of the property text** (and contrasts), decided on
+the model; class masks: 16 NUMERIC, 256 KANJINUMERIC, 0 for separators and `円` -/
+theorem malformed_run_witnesses :
+    -- `12,34円`: bad last group, detected by `done()` (COMMA), the node before `円` is no separator: untouched
+    joinNumeral .repaired .fix wcfg [16, 16, 0, 16, 16, 0] (wpath ["1", "2", ",", "3", "4", "円"]) =
+      .ok (wpath ["1", "2", ",", "3", "4", "円"]) ∧
+    -- `12,345円` (contrast): one token 12345
+    joinNumeral .repaired .fix wcfg [16, 16, 0, 16, 16, 16, 0] (wpath ["1", "2", ",", "3", "4", "5", "円"]) =
+      .ok [mergedNode (tk 0 "1" 1) (tk 5 "5" 1) (wpath ["1", "2", ",", "3", "4", "5"]) (some "12345".toList), tk 6 "円" 0] ∧
+    -- `1.` at the end of the text: dangling point (POINT), back-off to `1`, whose form already is `1`: untouched
+    joinNumeral .repaired .fix wcfg [16, 0] (wpath ["1", "."]) = .ok (wpath ["1", "."]) ∧
+    -- `12.円`: back-off joins the well-formed prefix `12` (form 12), the point stays a token
+    joinNumeral .repaired .fix wcfg [16, 16, 0, 0] (wpath ["1", "2", ".", "円"]) =
+      .ok [mergedNode (tk 0 "1" 1) (tk 1 "2" 1) (wpath ["1", "2"]) (some "12".toList), tk 2 "." 1, tk 3 "円" 0] ∧
+    -- `1.2.3`: the second point is rejected by `append` (POINT): the run is restarted with the point no longer a
+    -- digit; `1`, `2`, `3` are runs of their own: all five tokens stay
+    joinNumeral .repaired .fix wcfg [16, 0, 16, 0, 16] (wpath ["1", ".", "2", ".", "3"]) =
+      .ok (wpath ["1", ".", "2", ".", "3"]) ∧
+    -- `百万十億`: `億` after `万` is rejected by `append` without an error state (repair F4): the run is dropped,
+    -- nothing is joined — not even the well-formed prefix `百万十`
+    joinNumeral .repaired .fix wcfg [256, 256, 256, 256] (wpath ["百", "万", "十", "億"]) =
+      .ok (wpath ["百", "万", "十", "億"]) ∧
+    -- (the pinned parser rejects `億` here as well: the terms overlap)
+    joinNumeral .pinned .fix wcfg [256, 256, 256, 256] (wpath ["百", "万", "十", "億"]) =
+      .ok (wpath ["百", "万", "十", "億"]) ∧
+    -- `十万一万` (units out of order, no overlap): untouched with repair F4; the pinned parser (finding F4) makes ONE
+    -- token with the value 110000
+    joinNumeral .repaired .fix wcfg [256, 256, 256, 256] (wpath ["十", "万", "一", "万"]) =
+      .ok (wpath ["十", "万", "一", "万"]) ∧
+    joinNumeral .pinned .fix wcfg [256, 256, 256, 256] (wpath ["十", "万", "一", "万"]) =
+      .ok [mergedNode (tk 0 "十" 1) (tk 3 "万" 1) (wpath ["十", "万", "一", "万"]) (some "110000".toList)] ∧
+    -- `百万` alone: one token 1000000
+    joinNumeral .repaired .fix wcfg [256, 256] (wpath ["百", "万"]) =
+      .ok [mergedNode (tk 0 "百" 1) (tk 1 "万" 1) (wpath ["百", "万"]) (some "1000000".toList)] := by
+  refine ⟨by decide, by decide, by decide, by decide, by decide, by decide, by decide, by decide, by decide, by decide⟩
+
+/-! non-vacuity of the hypotheses of the token theorems -/
+
+/-- a `NumeralRun`: the nodes `1` `2` (class NUMERIC, numeral part of speech) write the numeral `12` -/
+example : ∃ a, NumeralRun wcfg [16, 16, 0] (tk 0 "1" 1) [tk 1 "2" 1] a := by
+  obtain ⟨a, hw, hf, hr⟩ := accepted_wellformed .repaired rfl rfl rfl rfl "12".toList "12".toList (by decide)
+  refine ⟨a, ⟨?_, by rw [hr]; decide, hw, hf, rfl, by decide, by decide⟩⟩
+  intro n hn
+  simp only [List.mem_cons, List.mem_nil_iff, or_false] at hn
+  rcases hn with rfl | rfl <;> exact ⟨16, by decide, .inl (by decide)⟩
+
+/-- a node that resets the loop (`円`: no numeric class, not a separator), a context the joiner leaves
+alone, and the theorem applied: `12円` becomes `12` `円` -/
+example : Resets [16, 16, 0] (tk 2 "円" 0) ∧
+    joinNumeral .repaired .fix wcfg [16, 16, 0] [] = .ok [] ∧
+    joinNumeral .repaired .fix wcfg [16, 16, 0] (wpath ["1", "2", "円"]) =
+      .ok [mergedNode (tk 0 "1" 1) (tk 1 "2" 1) (wpath ["1", "2"]) (some "12".toList), tk 2 "円" 0] := by
+  refine ⟨⟨0, by decide, by decide, by decide, by decide⟩, by decide, by decide⟩
+
+/-- `enableNormalize` on and off: off, `12円` is joined with the concatenated stored forms (empty here:
+the stored form of a word that equals its headword is empty, so the token reads its surface `12`),
+and the single node `十` is not re-normalised to `10` as it is with the setting on -/
+example : wcfg.enableNormalize = true ∧ ({ wcfg with enableNormalize := false } : NCfg).enableNormalize = false ∧
+    joinNumeral .repaired .fix { wcfg with enableNormalize := false } [16, 16, 0] (wpath ["1", "2", "円"]) =
+      .ok [mergedNode (tk 0 "1" 1) (tk 1 "2" 1) (wpath ["1", "2"]) none, tk 2 "円" 0] ∧
+    joinNumeral .repaired .fix { wcfg with enableNormalize := false } [256] (wpath ["十"]) = .ok (wpath ["十"]) ∧
+    joinNumeral .repaired .fix wcfg [256] (wpath ["十"]) =
+      .ok [mergedNode (tk 0 "十" 1) (tk 0 "十" 1) (wpath ["十"]) (some "10".toList)] := by
+  refine ⟨rfl, rfl, by decide, by decide, by decide⟩
 
 end C15
